@@ -1,7 +1,7 @@
 (* Extract.v -- extraction of the executable model and spec oracles to OCaml.
    ExtrOcamlBasic only; numbers stay the Coq datatypes. *)
 From Coq Require Import Extraction ExtrOcamlBasic.
-From Lhasa Require Import Base Generated Crc16 DecBase BitReader Null Lzs Lz5 Decoder S_Larc Lh1 Lzhuf.
+From Lhasa Require Import Base Generated Crc16 DecBase BitReader Null Lzs Lz5 Decoder S_Larc Lh1 Lzhuf PmaCommon Pm2 Pm1.
 Extraction Language OCaml.
 Set Extraction Optimize.
 Extraction "../harness/ml/model.ml"
@@ -12,4 +12,6 @@ Extraction "../harness/ml/model.ml"
   lz5_init lz5_read lz5_max_read lz5_block_size
   lzs_expand lz5_expand lzs_serialise lz5_serialise lzs_wf_cmd lz5_wf_cmd
   lh1_init lh1_read lh1_max_read lh1_block_size
-  StartHuff reconst update char_code EncodeChar EncodePosition lzhuf_encode bits_to_bytes lz77_expand_4k.
+  StartHuff reconst update char_code EncodeChar EncodePosition lzhuf_encode bits_to_bytes lz77_expand_4k
+  pm2_init pm2_read pm2_max_read pm2_block_size
+  pm1_init pm1_read pm1_max_read pm1_block_size.
